@@ -30,6 +30,16 @@ correspondence : real hierarchies (every constructor, AIR with R != P^T, hand-bu
                  matrices Q of the recorded calls), and c03x_q gives the Q of a recorded call column by column for the
                  requested-smoother check of every family (also on the systematic option grid).  Exact arithmetic on kernels
                  that divide is expensive: requests are taken cheapest-first (every family first) within a budget per tier.
+                 Extension E55 (Model/ExtC03YCyc.lean, theorems Proofs/ExtC03YThm.lean over an arbitrary field): the same model
+                 with the scalar type as a parameter (cycY / solveY / precY, driver ops c03y_run / c03y_q with a scalar tag) runs
+                 COMPLEX hierarchies -- Hermitian (smoothed aggregation, root node, hand-built) and nonsymmetric (complex
+                 advection-diffusion) -- over the Gaussian rationals with every level matrix, P, R, the coarse solver and every
+                 recorded relaxation call as complex data (the conjugation of the _ne / _nr kernels included) instead of the
+                 realified system with probed smoother matrices, and takes the POINT SMOOTHERS OF BSR LEVELS (gauss_seidel / sor /
+                 jacobi: kernels bsr_gauss_seidel / bsr_jacobi = the point kernels on the point rows of the BSR arrays) and
+                 CF / FC BLOCK JACOBI on BSR levels (block CF splitting supplied by the check; kernel block_jacobi_indexed) as
+                 recorded calls.  Half of the elasticity matrices are transformed by a block-diagonal congruence so that the
+                 diagonal blocks are full (otherwise the order of the rows inside a block row is not observable).
 search         : an independent NumPy recursion from the same pieces; exact solution is a fixed point; k one-cycle
                  calls == one k-cycle call (bitwise in practice); aspreconditioner is additive/homogeneous, equals the
                  cycle from a zero guess and follows the requested cycle type across a history of requests (V, W, F in
@@ -46,6 +56,13 @@ storage types  : every configuration is also run with b and x0 stored in other t
                  common type give the same result (1e-13 of the result: separates a single-precision rounding of an input from
                  double rounding), k calls with the wide iterate fed back == one k-cycle call, x0 omitted, aspreconditioner @ v,
                  the exact solution of the narrow right-hand side is a fixed point, b and x0 keep their content and type.
+coarse solve   : the coarse-solver matrix of the reference recursion (and of the Lean requests) is the dense inverse -- the
+                 pseudo-inverse for pinv on an exactly singular matrix -- recomputed from the STORED levels[-1].A, not the matrix
+                 probed from the solver under test; the probed matrix is compared with it (tolerance 1e3 eps cond, at least 1e-10;
+                 condition > 1e4: compared only, the probed matrix stays in the reference).  Systematic grid in every run: every
+                 direct solver name (plain and (name, {}) form) x coarsest matrix real nonsymmetric | complex Hermitian | complex
+                 nonsymmetric (| real symmetric) x coarsest matrix stored as CSR | BSR x 1 | 2 | 3 levels (RS / AIR / aggregation /
+                 hand-built hierarchies), each with cycles, k calls, fixed point, storage types and the aspreconditioner history.
 histories      : every grid specification and a third of the random ones is also run after
                  MultilevelSolver.change_solve_matrix(Anew) (Anew = S A S, same format / block size): the whole pipeline
                  above (finest-level smoothers consistent with Anew, requested method with its default options set up for
@@ -59,15 +76,17 @@ import numpy as np
 import scipy.sparse as sp
 
 import gen
-from common import enc_rats, enc_rat, enc_ints, dec_list, dec_rat
+from common import enc_rats, enc_rat, enc_ints, dec_list, dec_rat, enc_crats, enc_crat, dec_crat
 
 META = {
     'rule': 'cases = (hierarchy, cycle, cycles_per_level) with hierarchy = matrix family (1-D/2-D Poisson, anisotropic '
             'diffusion, weighted graph Laplacian, random SPD, singular Neumann, upwind advection-diffusion 1-D/2-D, '
-            'linear elasticity BSR, complex Hermitian) x constructor (ruge_stuben, smoothed_aggregation, rootnode, '
+            'linear elasticity BSR (plain / with coupled diagonal blocks; with a CF splitting of the block rows for CF / FC block '
+            'Jacobi; complex Hermitian with complex blocks), complex Hermitian, complex nonsymmetric advection-diffusion) x constructor (ruge_stuben, smoothed_aggregation, rootnode, '
             'pairwise, adaptive_sa, air, hand-built MultilevelSolver with random P, R = P^H or independent R, Galerkin or not) x '
             'max_levels/max_coarse x pre/post smoother (all linear families, options, per-level lists, via constructor or '
-            'change_smoothers) x coarse solver (pinv, lu, cholesky, splu) x history (as built | after change_solve_matrix(S A S)); '
+            'change_smoothers) x coarse solver (pinv, lu, cholesky, splu; each also on a grid coarsest matrix real nonsymmetric / '
+            'complex Hermitian / complex nonsymmetric x stored as CSR / BSR x 1, 2, 3 levels) x history (as built | after change_solve_matrix(S A S)); '
             'cycle in V, W, F with cycles_per_level 1..3; b and x0 in the matrix type and in mixed storage types (narrower / '
             'integer / bool / real-vs-complex / Python list; values compared in the common upcast type); '
             'non-trivial = at least 2 levels for V, at least 3 levels for W and F (otherwise the cycle types coincide); '
@@ -78,10 +97,12 @@ META = {
                     'the requested-smoother check (closure installed on level i == the requested relaxation call with the '
                     'requested options; systematic option grid of every linear smoother family) has a Lean counterpart (c03x_q: the '
                     'kernel model of the recorded call applied to the unit right-hand sides; pygs / pyjac for Gauss-Seidel / SOR / '
-                    'Jacobi) for every linear family on real levels within the exact-arithmetic budget of the tier; complex levels, '
-                    'point smoothers and CF / FC block Jacobi on BSR levels, levels with a singular diagonal block or a row without '
-                    'exactly one non-zero stored diagonal entry, cf/fc_block_jacobi with non-default f/c iterations on CSR (the '
-                    'path of the repaired defect bf8780c) and requests beyond the budget are judged by the direct relaxation call only',
+                    'Jacobi; c03y_q for complex levels, the point smoothers of BSR levels and CF / FC block Jacobi on BSR levels) for '
+                    'every linear family on real and complex levels within the exact-arithmetic budget of the tier; levels with a '
+                    'singular diagonal block or a row without exactly one non-zero stored diagonal entry, cf_jacobi / fc_jacobi on a '
+                    'BSR level (kernel bsr_jacobi_indexed), cf/fc_block_jacobi with non-default f/c iterations on real CSR levels '
+                    '(the path of the repaired defect bf8780c) and requests beyond the budget are judged by the direct relaxation '
+                    'call only',
                     'solve(accel=...) hands aspreconditioner(cycle) to the Krylov method: for callables of both conventions the '
                     'composed model (C08 plan + C01 loop + this cycle model; theorem accelerated_solve_preconditioner_is_M) is '
                     'compared with what a recording accel receives; named accelerators are observed by C08',
@@ -92,8 +113,15 @@ META = {
     'partial': [],
     'assumptions': ['the smoother closures and the coarse solver are probed on unit vectors and checked per instance to be affine '
                     'maps x + Q (b - A x) resp. linear maps (1e-8); their internals are C09 / outside this property',
-                    'complex hierarchies are sent to the rational model as the equivalent real system [[Re,-Im],[Im,Re]] (a '
-                    'complex-linear map is a real-linear map; complex linearity of the probed maps is checked on random complex vectors)',
+                    'the coarse solve of the reference is inv(levels[-1].A) recomputed densely (pinv for the pinv solver on an exactly '
+                    'singular matrix with an unambiguous numerical rank; cholesky only on Hermitian positive definite matrices); the '
+                    'probed coarse-solver matrix must agree with it to max(1e-10, 1e3 eps cond) |A_c^-1|; for condition numbers in '
+                    '(1e4, 1e8) the probed matrix (so verified) is used in the recursion, singular matrices with a non-pinv solver '
+                    'and ambiguous ranks have no dense oracle (counted)',
+                    'complex hierarchies are sent to the rational model of the probed pieces (c03_run) as the equivalent real system '
+                    '[[Re,-Im],[Im,Re]] (a complex-linear map is a real-linear map; complex linearity of the probed maps is checked on '
+                    'random complex vectors) and, extension E55, as complex data to the scalar-polymorphic extended model (c03y_run: '
+                    'Gaussian rationals, recorded relaxation calls with the conjugation of the _ne / _nr kernels)',
                     'floating-point rounding is outside the model: comparison tolerance 1e-9 relative to the largest '
                     'intermediate quantity of the cycle; instances whose reference operator amplifies a vector by more than 1e4, '
                     'whose probed pieces exceed 1e6 or whose coarse matrix has condition > 1e8 are skipped and counted',
@@ -107,7 +135,13 @@ META = {
                     'it, Dinv_i A_ii = I) is decided by the driver on every request; block inverses are sent as the exact rational '
                     'inverses of the stored diagonal blocks (the LAPACK inverses the code uses agree with them to 1e-12, checked; otherwise the probed matrix is used), '
                     'Schwarz subdomain inverses, scaled omegas and polynomial coefficients are sent as recorded (floats = dyadic '
-                    'rationals); rho estimates (A.rho, A.rho_D_inv, A.rho_block_D_inv) are read from the level matrices'],
+                    'rationals); rho estimates (A.rho, A.rho_D_inv, A.rho_block_D_inv) are read from the level matrices',
+                    'extension E55: the same for the scalar-polymorphic model (theorems over an arbitrary field, applied over the '
+                    'rationals and the Gaussian rationals): Sm.OK / AllOK is decided by the driver on every request -- for the point '
+                    'smoothers of a BSR level it asks that the BSR arrays are the level matrix (theorem: their point rows then are, '
+                    'too) and that every point row the kernel traverses stores one non-zero diagonal entry; for CF / FC block Jacobi that '
+                    'Dinv_i A_ii = I and the C / F block rows exist; block inverses are sent as exact (Gaussian-)rational inverses '
+                    '(agreement with the LAPACK inverses to 1e-12 checked, otherwise the probed matrix is used)'],
 }
 
 TOL = 1e-9
@@ -125,7 +159,7 @@ def _key(*a):
 
 SYM_FAMS = ['poisson1d', 'poisson2d', 'laplacian', 'randspd', 'aniso2d']
 NONSYM_FAMS = ['advdiff1d', 'advdiff2d']
-OTHER_FAMS = ['elasticity', 'complex', 'neumann1d']
+OTHER_FAMS = ['elasticity', 'celasticity', 'complex', 'cadvdiff', 'neumann1d']
 
 
 def matrix(fam, n, mseed):
@@ -167,10 +201,26 @@ def matrix(fam, n, mseed):
                                          offsets=[-1, 0, 1], format='csr')
         A = sp.kron(sp.eye_array(b), T(a, c)) + sp.kron(T(b, 0.0), sp.eye_array(a))
         info.update(sym=False, spd=False)
-    elif fam == 'elasticity':
+    elif fam in ('elasticity', 'celasticity'):
         a = max(2, int(round((n / 2) ** 0.5)))
         b = max(2, (n // 2) // a)
         A, B = pyamg.gallery.linear_elasticity((a, b), format='bsr')
+        if mseed % 2 == 1:
+            # the diagonal blocks of the Q1 elasticity matrix on a uniform grid are diagonal matrices, so the order in which a
+            # point kernel visits the rows INSIDE a block row would not be observable: congruence with the block-diagonal
+            # T = diag([[1, 1/2], [0, 1]]) (A -> T^T A T, near-nullspace B -> T^-1 B) couples the two unknowns of every node
+            T = sp.kron(sp.eye_array(A.shape[0] // 2), np.array([[1.0, 0.5], [0.0, 1.0]])).tocsr()
+            Ti = sp.kron(sp.eye_array(A.shape[0] // 2), np.array([[1.0, -0.5], [0.0, 1.0]])).tocsr()
+            A = sp.csr_array(T.T @ sp.csr_array(A) @ T).tobsr(blocksize=(2, 2))
+            B = Ti @ B
+        if fam == 'celasticity':
+            # complex Hermitian positive definite BSR matrix with complex diagonal blocks: unitary diagonal congruence D^H A D with
+            # phases in {1, i, -1, -i} (exact in floating point), near-nullspace D^H B
+            ph = rng.choice(np.array([1, 1j, -1, -1j]), size=A.shape[0])
+            D = sp.diags_array(ph).tocsr()
+            A = sp.csr_array(D.conj() @ sp.csr_array(A) @ D).tobsr(blocksize=(2, 2))
+            B = D.conj() @ B.astype(complex)
+            info['complex'] = True
         info['B'] = B
         A.indptr = A.indptr.astype(np.int32)
         A.indices = A.indices.astype(np.int32)
@@ -178,6 +228,13 @@ def matrix(fam, n, mseed):
     elif fam == 'complex':
         A = gen.spd_matrix(rng, n, str(rng.choice(['poisson1d', 'laplacian'])), complex_=True)
         info['complex'] = True
+    elif fam == 'cadvdiff':
+        # complex NONSYMMETRIC (neither Hermitian nor symmetric): upwind advection-diffusion with a complex shift and a complex
+        # upper diagonal; all entries dyadic, strictly diagonally dominant by rows
+        c = float(rng.choice([0.5, 1.0, 3.0]))
+        A = sp.diags_array([(-1.0 - c) * np.ones(n - 1, dtype=complex), (2.5 + c + 0.5j) * np.ones(n, dtype=complex),
+                            (-1.0 + 0.25j) * np.ones(n - 1, dtype=complex)], offsets=[-1, 0, 1], format='csr')
+        info.update(sym=False, spd=False, complex=True)
     else:
         raise KeyError(fam)
     return gen.int32csr(sp.csr_array(A)), info
@@ -273,7 +330,7 @@ def gen_spec(rng, t, big=False):
     elif r < 0.75:
         fam = 'elasticity'
     elif r < 0.85:
-        fam = 'complex'
+        fam = 'complex' if r < 0.815 else 'cadvdiff'      # complex Hermitian | complex nonsymmetric (extension E55)
     else:
         fam = 'neumann1d'
     n = int(rng.integers(60, 130)) if big else int(rng.choice([6, 9, 12, 15, 16, 20, 24, 27, 31, 32]))
@@ -406,6 +463,8 @@ def build(spec):
     from pyamg.multilevel import MultilevelSolver
     from pyamg.relaxation.smoothing import change_smoothers
     A, info = matrix(spec['fam'], spec['n'], spec['mseed'])
+    if spec.get('tobsr'):          # coarse-solver grid: the same matrix handed over in BSR storage
+        A = _as_bsr(A, spec['tobsr'])
     np.random.seed(spec['npseed'])
     pre, post = _to_arg(spec['pre']), _to_arg(spec['post'])
     cs = spec['coarse'] if isinstance(spec['coarse'], str) else (spec['coarse'][0], dict(spec['coarse'][1]))
@@ -427,13 +486,30 @@ def build(spec):
     elif ctor == 'pairwise':
         ml = pyamg.pairwise_solver(A, **kw)
     elif ctor == 'manual':
-        ml = MultilevelSolver(_manual_levels(A, info, spec), coarse_solver=cs)
+        lvs_ = _manual_levels(A, info, spec)
+        if spec['manual'].get('coarse_fmt') == 'bsr':          # coarse-solver grid: the coarsest matrix stored as BSR
+            lvs_[-1].A = _as_bsr(lvs_[-1].A, 2)
+        ml = MultilevelSolver(lvs_, coarse_solver=cs)
     elif ctor == 'adaptive':
         from pyamg.aggregation import adaptive_sa_solver
         ml, _work = adaptive_sa_solver(A, num_candidates=1 + spec['mseed'] % 2, candidate_iters=3, max_levels=max(2, spec['max_levels']),
                                        max_coarse=spec['max_coarse'], coarse_solver=cs)
     else:
         raise KeyError(ctor)
+    if spec.get('block_split') is not None:
+        # extension E55: a CF splitting of the BLOCK rows of every level (cf_block_jacobi / fc_block_jacobi on BSR levels need
+        # one; the aggregation constructors do not produce it), both classes non-empty where possible
+        srng = np.random.default_rng(spec['block_split'])
+        for lv in ml.levels:
+            if hasattr(lv, 'splitting'):
+                continue
+            bsz = lv.A.blocksize[0] if lv.A.format == 'bsr' else 1
+            nbl = lv.A.shape[0] // bsz
+            spl = srng.random(nbl) < 0.5
+            if nbl >= 2:
+                spl[int(srng.integers(nbl))] = True
+                spl[(int(np.argmax(spl)) + 1) % nbl] = False
+            lv.splitting = spl
     if spec['via'] == 'change' or ctor in ('manual', 'adaptive'):
         change_smoothers(ml, pre, post)
     if spec.get('changed') is not None and len(ml.levels) > 1:
@@ -689,6 +765,22 @@ def expected_smoother(level, name, kw, variant=None):
         if variant == 'fc-iterations-dropped':
             fi = ci = 1
         return lambda A_, x, b: fn(A, x, b, Cpts=C, Fpts=F, iterations=it, f_iterations=fi, c_iterations=ci, omega=om)
+    if name in ('cf_block_jacobi', 'fc_block_jacobi') and A.format == 'bsr':
+        if not hasattr(level, 'splitting'):
+            return None
+        bs = A.blocksize[0]
+        om = kw.get('omega', 1.0)
+        Dinv = get_block_diag(A, blocksize=bs, inv_flag=True)
+        if kw.get('withrho', False):
+            if not hasattr(A, 'rho_block_D_inv'):
+                return None
+            om = om / A.rho_block_D_inv
+        F = np.where(np.logical_not(level.splitting))[0].astype(int)
+        C = np.where(level.splitting)[0].astype(int)
+        fn = R.cf_block_jacobi if name.startswith('cf') else R.fc_block_jacobi
+        fi, ci = kw.get('f_iterations', 1), kw.get('c_iterations', 1)
+        return lambda A_, x, b: fn(A, x, b, Cpts=C, Fpts=F, Dinv=Dinv, blocksize=bs, iterations=it, f_iterations=fi,
+                                   c_iterations=ci, omega=om)
     if name == 'chebyshev':
         from pyamg.relaxation.chebyshev import chebyshev_polynomial_coefficients
         if not hasattr(A, 'rho'):
@@ -1286,6 +1378,12 @@ def check_hier(ctx, spec, H, configs, lean_items, want_lean, want_m, precond=Tru
                 lean_items[-1]['e38'] = (f'c03x_run {c} {cpl} {k} {1 if want_m else 0} {H.e38} '
                                          f'{enc_rats(_realify_v(x0, H.cplx))} {enc_rats(_realify_v(b, H.cplx))}')
                 lean_items[-1]['e38_cost'] = e38_cost_run(H.e38_toks, H.dims, c, cpl) * (2.0 if want_m else 1.0)
+            if getattr(H, 'e55', None) is not None and ((c, cpl) == configs[0] or rng.random() < 0.35):
+                # extension E55: the same cycle through the scalar-polymorphic model (complex data, smoothers of BSR levels)
+                E = _Enc(H.cplx)
+                chk = want_m or H.dims[0] <= 9
+                lean_items[-1]['e55'] = (f'c03y_run {E.tag} {c} {cpl} {k} {1 if chk else 0} {H.e55} {E.vec(x0)} {E.vec(b)}')
+                lean_items[-1]['e55_cost'] = e55_cost_run(H.e55_toks, H.dims, c, cpl, H.cplx) * (2.0 if chk else 1.0)
             if (c, cpl) == configs[0] or rng.random() < 0.1:        # extension E17: the composed solve-path models
                 try:
                     lean_items[-1]['e17'] = e17_observe(ctx, H, hdr, c, cpl, x0, b, A0d, max(sc, sck))
@@ -1730,14 +1828,40 @@ def judge_e38(ctx, items, outs):
         cmp(f'extended model: aspreconditioner({c}) @ b', fv(parts[2]), it['pv'], ref(H, np.zeros_like(it['b']), it['b'], c, 1)[0])
 
 
+def _q_kind(it):
+    """family of the recorded call of a c03x_q / c03y_q item"""
+    f = it['lines'][0].split(' ')
+    return f[3 if it.get('e55') else 2].split(':', 1)[0]
+
+
+def _q_sig(it):
+    """family and option signature of the recorded call of a c03y_q item (budget selection: one request of every signature
+    first): sweep direction, iteration counts, CF / FC order, omega = 1 or not"""
+    f = it['lines'][0].split(' ')[3].split(':')
+    k = f[0]
+    if k == 'cfbjac':
+        return ':'.join([k, f[1]] + f[11:14])
+    if k == 'cfjac':
+        return ':'.join([k, f[1]] + f[9:12])
+    blk = ['b1' if f[3] == '1' else 'bN'] if k in ('bsrgs', 'bsrjac') else []      # 1 x 1 blocks (coarse levels) or real blocks
+    if k in ('gs', 'gsne', 'gsnr', 'bsrgs', 'bgs', 'schwarz'):
+        return ':'.join([k, 'w1' if f[1] in ('1', '1|0') else 'w'] + blk + f[-2:])
+    return ':'.join([k] + blk + [f[-1]])
+
+
 def judge_smoothers(ctx, sm_items, outs):
     pos = 0
     for it in sm_items:
         rep = outs[pos:pos + len(it['lines'])]
         pos += len(it['lines'])
-        ctx.feat('lean:smoother-Q' + (':e38:' + it['lines'][0].split(' ')[2].split(':', 1)[0] if it.get('e38') else ''))
+        ctx.feat('lean:smoother-Q' + ((':e55:' + it['e55'].tag + ':' if it.get('e55') else ':e38:') + _q_kind(it) if it.get('e38') else ''))
         try:
-            if it.get('e38'):           # `ok#Q` of c03x_q: the recorded call must be a call for the level matrix
+            if it.get('e55'):           # `ok#Q` of c03y_q (rationals or Gaussian rationals)
+                okflag, qs = rep[0].split('#')
+                if okflag != '1':
+                    raise ValueError('not a call for the level matrix')
+                Qm = np.array([it['e55'].dec_vec(r) for r in qs.split(';')])
+            elif it.get('e38'):           # `ok#Q` of c03x_q: the recorded call must be a call for the level matrix
                 okflag, qs = rep[0].split('#')
                 if okflag != '1':
                     raise ValueError('not a call for the level matrix')
@@ -1753,6 +1877,550 @@ def judge_smoothers(ctx, sm_items, outs):
             ctx.corr(f'level {it["level"]} {it["side"]}smoother {it["name"]}{it["kw"]}: Q of the installed closure vs the Lean kernel model',
                      _case(it['spec'], dims=it['dims'], kind='requested-smoother', level=it['level'], side=it['side']),
                      Qm[:2].tolist(), np.asarray(Q)[:2].tolist())
+
+
+# ------------------------------------------------------------------------------------------------
+# extension E55: the scalar-polymorphic extended cycle model (Model/ExtC03YCyc.lean, theorems Proofs/ExtC03YThm.lean over an
+# arbitrary field).  Same protocol as E38 with a scalar tag: `r` = rationals, `c` = Gaussian rationals (`re|im`), so that
+#   * COMPLEX hierarchies (Hermitian and nonsymmetric) are no longer realified with probed smoother matrices: every level matrix,
+#     P, R, the coarse solver and every recorded relaxation call (with the conjugation of the `_ne` / `_nr` kernels) is sent as
+#     complex data and the kernel models run over the Gaussian rationals,
+#   * the POINT SMOOTHERS OF BSR LEVELS (gauss_seidel / sor / jacobi: kernels bsr_gauss_seidel, bsr_jacobi) and CF / FC BLOCK
+#     JACOBI on BSR levels are recorded calls (`bsrgs`, `bsrjac`, `cfbjac`) instead of probed matrices.
+# ------------------------------------------------------------------------------------------------
+
+E55_NEW_KINDS = ('bsrgs', 'bsrjac', 'cfbjac')
+
+
+class _Enc:
+    """scalar encoding of one request: rationals or Gaussian rationals"""
+    def __init__(self, cplx):
+        self.cplx = bool(cplx)
+        self.tag = 'c' if cplx else 'r'
+        self.vec = enc_crats if cplx else enc_rats
+        self.one = enc_crat if cplx else enc_rat
+
+    def mat(self, M):
+        M = np.asarray(M)
+        if M.size == 0:
+            return '-'
+        return ';'.join(self.vec(r) for r in M)
+
+    def dec_vec(self, t):
+        if self.cplx:
+            return np.array([complex(float(a), float(b)) for (a, b) in dec_list(t, dec_crat)], dtype=complex)
+        return np.array([float(q) for q in dec_list(t, dec_rat)])
+
+
+def _gq_inverse(B):
+    """exact inverse of a small real or complex float matrix over the (Gaussian) rationals, Gauss-Jordan; None when singular;
+    entries are returned as (Fraction re, Fraction im)"""
+    from fractions import Fraction
+    m = B.shape[0]
+    B = np.asarray(B, dtype=complex)
+
+    def mul(u, v):
+        return (u[0] * v[0] - u[1] * v[1], u[0] * v[1] + u[1] * v[0])
+
+    def sub(u, v):
+        return (u[0] - v[0], u[1] - v[1])
+
+    def inv(u):
+        d = u[0] * u[0] + u[1] * u[1]
+        return (u[0] / d, -u[1] / d)
+    zero, one = (Fraction(0), Fraction(0)), (Fraction(1), Fraction(0))
+    a = [[(Fraction(float(B[i, j].real)), Fraction(float(B[i, j].imag))) for j in range(m)] + [one if i == j else zero for j in range(m)]
+         for i in range(m)]
+    for c in range(m):
+        p = next((r for r in range(c, m) if a[r][c] != zero), None)
+        if p is None:
+            return None
+        a[c], a[p] = a[p], a[c]
+        pi = inv(a[c][c])
+        a[c] = [mul(v, pi) for v in a[c]]
+        for r in range(m):
+            if r != c and a[r][c] != zero:
+                f = a[r][c]
+                a[r] = [sub(vr, mul(f, vc)) for vr, vc in zip(a[r], a[c])]
+    return [row[m:] for row in a]
+
+
+def _enc_frac(f):
+    return str(f.numerator) if f.denominator == 1 else f'{f.numerator}/{f.denominator}'
+
+
+def _same_as_level_s(M, Ad):
+    """`_same_as_level` for real or complex data: the stored copy is the level matrix entry by entry, no stored duplicates"""
+    if M.shape != Ad.shape or not np.all(np.isfinite(M.data)):
+        return False
+    if np.iscomplexobj(M.data) and not np.iscomplexobj(Ad):
+        return False
+    C = M.copy()
+    C.sum_duplicates()
+    if C.nnz != M.nnz:
+        return False
+    return bool(np.array_equal(M.toarray(), Ad))
+
+
+def _bsr_point_diag_ok(A):
+    """every point row of the BSR arrays stores exactly one, non-zero, diagonal entry: the diagonal block of every block row is
+    stored exactly once and its diagonal has no zero"""
+    bs = A.blocksize[0]
+    for i in range(A.shape[0] // bs):
+        jj = [q for q in range(A.indptr[i], A.indptr[i + 1]) if A.indices[q] == i]
+        if len(jj) != 1 or np.any(np.diag(A.data[jj[0]]) == 0):
+            return False
+    return True
+
+
+def _bsr_arrays_tok(A, E):
+    return f'{A.shape[0] // A.blocksize[0]}:{A.blocksize[0]}:{enc_ints(A.indptr)}:{enc_ints(A.indices)}:{E.vec(np.ravel(A.data))}'
+
+
+def _bsr_tok_s(A, E):
+    """BSR arrays of a square-block matrix and the exact (Gaussian-)rational inverses of its diagonal blocks; None when n/a"""
+    bs = A.blocksize[0]
+    if A.blocksize[1] != bs or A.shape[0] % bs or A.shape[0] != A.shape[1]:
+        return None
+    nb = A.shape[0] // bs
+    dinv = []
+    for i in range(nb):
+        D = np.zeros((bs, bs), dtype=complex)
+        for jj in range(A.indptr[i], A.indptr[i + 1]):
+            if A.indices[jj] == i:
+                D = D + A.data[jj]
+        inv = _gq_inverse(D)
+        if inv is None:
+            return None
+        dinv += [v for row in inv for v in row]
+    if E.cplx:
+        dtok = ','.join(_enc_frac(re) + '|' + _enc_frac(im) for (re, im) in dinv)
+    else:
+        if any(im != 0 for (_, im) in dinv):
+            return None
+        dtok = ','.join(_enc_frac(re) for (re, _) in dinv)
+    return (f'{_bsr_arrays_tok(A, E)}:{dtok}',
+            np.array([complex(float(re), float(im)) for (re, im) in dinv]).reshape(nb, bs, bs))
+
+
+def e55_token(level, Ad, name, kw, E):
+    """the recorded relaxation call of the requested smoother on this level as a token of the scalar-polymorphic driver (real or
+    complex data; CSR, CSC and BSR levels), or (None, why)"""
+    from pyamg.relaxation import relaxation as R
+    A = level.A
+    it = int(kw.get('iterations', 1))
+    sw = kw.get('sweep', 'forward')
+    if not _sweep_ok(sw):
+        return None, 'sweep'
+    if np.iscomplexobj(A.data) and not E.cplx:
+        return None, 'complex-data-real-run'
+    csr_level = A.format == 'csr'
+    bsr_level = A.format == 'bsr' and A.blocksize[0] == A.blocksize[1]
+    csr_tok = lambda M: f'{M.shape[0]}:{enc_ints(M.indptr)}:{enc_ints(M.indices)}:{E.vec(M.data)}'
+
+    def point():                # the Gauss-Seidel / SOR / Jacobi kernels divide by THE stored diagonal entry of a row
+        if csr_level:
+            if not _same_as_level_s(A, Ad):
+                return 'matrix-copy'
+            return None if _diag_ok(A) else 'no-unique-nonzero-diagonal'
+        if bsr_level:
+            if not _same_as_level_s(A, Ad):
+                return 'matrix-copy'
+            return None if _bsr_point_diag_ok(A) else 'no-unique-nonzero-diagonal'
+        return 'format'
+
+    def rho_scaled(om, attr, holder=None, power=1):
+        holder = A if holder is None else holder
+        if not hasattr(holder, attr):
+            return None
+        return om / getattr(holder, attr) ** power
+
+    if name in ('gauss_seidel', 'sor') or (name == 'block_gauss_seidel' and (csr_level or A.blocksize[0] == 1)):
+        why = point()
+        if why is not None:
+            return None, why
+        om = kw.get('omega', 0.5) if name == 'sor' else 1.0
+        if csr_level:
+            return f'gs:{E.one(om)}:{csr_tok(A)}:{it}:{sw}', None
+        return f'bsrgs:{E.one(om)}:{_bsr_arrays_tok(A, E)}:{it}:{sw}', None
+    if name == 'jacobi' or (name == 'block_jacobi' and (csr_level or A.blocksize[0] == 1)):
+        om = kw.get('omega', 1.0)
+        if kw.get('withrho', True):
+            om = rho_scaled(om, 'rho_D_inv')
+            if om is None:
+                return None, 'no-rho'
+        why = point()
+        if why is not None:
+            return None, why
+        if csr_level:
+            return f'jac:{E.one(om)}:{csr_tok(A)}:{it}', None
+        return f'bsrjac:{E.one(om)}:{_bsr_arrays_tok(A, E)}:{it}', None
+    if name in ('richardson', 'chebyshev'):
+        if not hasattr(A, 'rho'):
+            return None, 'no-rho'
+        if name == 'richardson':
+            coef = [kw.get('omega', 1.0) / A.rho]
+        else:
+            from pyamg.relaxation.chebyshev import chebyshev_polynomial_coefficients
+            lo, hi = kw.get('lower_bound', 1.0 / 30.0), kw.get('upper_bound', 1.1)
+            coef = list(-chebyshev_polynomial_coefficients(A.rho * lo, A.rho * hi, kw.get('degree', 3))[:-1])
+        M = sp.csr_array(A)
+        if not coef or not _same_as_level_s(M, Ad):
+            return None, 'matrix-copy'
+        return f'poly:{csr_tok(M)}:{E.vec(coef)}:{it}', None
+    if name in ('block_jacobi', 'block_gauss_seidel') and bsr_level:
+        if not _same_as_level_s(A, Ad):
+            return None, 'matrix-copy'
+        bt = _bsr_tok_s(A, E)
+        if bt is None:
+            return None, 'singular-diagonal-block'
+        tok, dinv = bt
+        from pyamg.util.utils import get_block_diag
+        rec = get_block_diag(A, blocksize=A.blocksize[0], inv_flag=True)
+        if rec.shape != dinv.shape or np.abs(rec - dinv).max(initial=0.0) > 1e-12 * (1 + np.abs(dinv).max(initial=0.0)):
+            return None, 'block-inverse-ill-conditioned'
+        if name == 'block_gauss_seidel':
+            return f'bgs:{tok}:{it}:{sw}', None
+        om = kw.get('omega', 1.0)
+        if kw.get('withrho', True):
+            om = rho_scaled(om, 'rho_block_D_inv')
+            if om is None:
+                return None, 'no-rho'
+        return f'bjac:{E.one(om)}:{tok}:{it}', None
+    if name in ('gauss_seidel_ne', 'jacobi_ne'):
+        M = getattr(level, 'Acsr', None)
+        if M is None or M.format != 'csr' or not _same_as_level_s(M, Ad):
+            return None, 'matrix-copy'
+        om = kw.get('omega', 1.0)
+        if name == 'gauss_seidel_ne':
+            return f'gsne:{E.one(om)}:{csr_tok(M)}:{it}:{sw}', None
+        if kw.get('withrho', True):
+            om = rho_scaled(om, 'rho_D_inv', M, 2)
+            if om is None:
+                return None, 'no-rho'
+        return f'jacne:{E.one(om)}:{csr_tok(M)}:{it}', None
+    if name == 'gauss_seidel_nr':
+        M = getattr(level, 'Acsc', None)
+        if M is None or M.format != 'csc' or not _same_as_level_s(M, Ad):
+            return None, 'matrix-copy'
+        return f'gsnr:{E.one(kw.get("omega", 1.0))}:{csr_tok(M)}:{it}:{sw}', None
+    if name in ('cf_jacobi', 'fc_jacobi', 'cf_block_jacobi', 'fc_block_jacobi'):
+        if not hasattr(level, 'splitting'):
+            return None, 'no-splitting'
+        fi, ci = int(kw.get('f_iterations', 1)), int(kw.get('c_iterations', 1))
+        cf = 1 if name.startswith('cf') else 0
+        Fp = np.where(np.logical_not(level.splitting))[0]
+        Cp = np.where(level.splitting)[0]
+        om = kw.get('omega', 1.0)
+        if csr_level:
+            if kw.get('withrho', False):
+                om = rho_scaled(om, 'rho_D_inv')
+                if om is None:
+                    return None, 'no-rho'
+            why = point()
+            if why is not None:
+                return None, why
+            return f'cfjac:{cf}:{E.one(om)}:{csr_tok(A)}:{enc_ints(Cp)}:{enc_ints(Fp)}:{it}:{fi}:{ci}', None
+        if not (bsr_level and name.endswith('block_jacobi') and A.blocksize[0] > 1):
+            return None, 'no-model'
+        if not _same_as_level_s(A, Ad) or len(level.splitting) * A.blocksize[0] != A.shape[0]:
+            return None, 'matrix-copy'
+        bt = _bsr_tok_s(A, E)
+        if bt is None:
+            return None, 'singular-diagonal-block'
+        tok, dinv = bt
+        from pyamg.util.utils import get_block_diag
+        rec = get_block_diag(A, blocksize=A.blocksize[0], inv_flag=True)
+        if rec.shape != dinv.shape or np.abs(rec - dinv).max(initial=0.0) > 1e-12 * (1 + np.abs(dinv).max(initial=0.0)):
+            return None, 'block-inverse-ill-conditioned'
+        if kw.get('withrho', False):
+            om = rho_scaled(om, 'rho_block_D_inv')
+            if om is None:
+                return None, 'no-rho'
+        return f'cfbjac:{cf}:{E.one(om)}:{tok}:{enc_ints(Cp)}:{enc_ints(Fp)}:{it}:{fi}:{ci}', None
+    if name in ('schwarz', 'strength_based_schwarz'):
+        M0 = getattr(level, 'Acsr', None)
+        if M0 is None or M0.format != 'csr' or not _same_as_level_s(M0, Ad):
+            return None, 'matrix-copy'
+        M = M0.copy()                        # a fresh object: no cached parameters
+        M.sort_indices()
+        if name == 'schwarz' or not hasattr(level, 'C'):
+            sub, subp = None, None
+        else:
+            Cm = level.C.tocsr().copy()
+            Cm.sort_indices()
+            sub, subp = Cm.indices.copy(), Cm.indptr.copy()
+        sub, subp, tx, tp = R.schwarz_parameters(M, sub, subp, None, None)
+        if not np.all(np.isfinite(tx)) or np.abs(tx).max(initial=0.0) > 1e8:
+            return None, 'subdomain-inverse-size'
+        return f'schwarz:{csr_tok(M)}:{E.vec(tx)}:{enc_ints(tp)}:{enc_ints(sub)}:{enc_ints(subp)}:{it}:{sw}', None
+    return None, 'no-model'
+
+
+def _tok_depth55(tok):
+    """`_tok_depth` with the three token kinds of E55"""
+    f = tok.split(':')
+    passes = lambda sw: 2 if sw == 'symmetric' else 1
+    if f[0] == 'bsrgs':
+        return int(f[2]) * int(f[3]) * passes(f[8]) * int(f[7])
+    if f[0] == 'bsrjac':
+        return 4 * int(f[7])
+    if f[0] == 'cfbjac':
+        return 4 * int(f[11]) * (int(f[12]) + int(f[13]))
+    return _tok_depth(tok)
+
+
+def e55_cost_q(tok, n, cplx):
+    return 8e-4 * n * n * _tok_depth55(tok) * (6.0 if cplx else 1.0)
+
+
+def e55_cost_run(toks, dims, c, cpl, cplx):
+    depth = sum(v * (_tok_depth55(t1) + _tok_depth55(t2) + 2) for v, (t1, t2) in zip(_visits(c, cpl, len(dims)), toks))
+    return 1.5e-5 * dims[0] * depth * depth * (6.0 if cplx else 1.0)
+
+
+def e55_levels(ctx, H, spec):
+    """per level the tokens of the pre / post smoother for the scalar-polymorphic model (probed matrix where no recorded call
+    applies); -> (tokens, number of recorded calls E38 could not express, list of (level, side, name, kw, token, is_new))"""
+    E = _Enc(H.cplx)
+    toks, rec, nnew = [], [], 0
+    for i, l in enumerate(H.ml.levels[:-1]):
+        L = H.levels[i]
+        pair = []
+        for side in ('pre', 'post'):
+            name, kw = requested(spec, side, i)
+            tok = None
+            if name is not None:
+                try:
+                    tok, why = e55_token(l, L['A'], name, kw, E)
+                except Exception as e:
+                    tok, why = None, 'raised:' + type(e).__name__
+                if tok is None:
+                    ctx.feat(f'e55:probed-matrix:{name}:{why}')
+            if tok is None:
+                tok = 'mat:' + E.mat(L['Q' + side])
+            else:
+                kind = tok.split(':', 1)[0]
+                new = H.cplx or kind in E55_NEW_KINDS
+                if new:
+                    nnew += 1
+                    ctx.feat(f'e55:recorded:{"complex:" if H.cplx else ""}{kind}')
+                rec.append((i, side, name, kw, tok, new))
+            pair.append(tok)
+        toks.append(tuple(pair))
+    return toks, nnew, rec
+
+
+def e55_header(H, toks):
+    E = _Enc(H.cplx)
+    parts = []
+    for L, (t1, t2) in zip(H.levels, toks):
+        parts += [E.mat(L[k]) for k in ('A', 'P', 'R')] + [t1, t2]
+    parts.append(E.mat(H.S))
+    return f'{H.nlev - 1} ' + ' '.join(parts)
+
+
+def e55_q_items(H, spec, rec, items):
+    """the requested-smoother check in Lean for the recorded calls E38 cannot express (complex data, BSR point smoothers, CF / FC
+    block Jacobi): Q of the recorded call against the Q probed from the installed closure"""
+    E = _Enc(H.cplx)
+    for (i, side, name, kw, tok, new) in rec:
+        if not new:
+            continue
+        items.append({'lines': [f'c03y_q {E.tag} {E.mat(H.levels[i]["A"])} {tok}'], 'Q': H.levels[i]['Q' + side], 'level': i,
+                      'side': side, 'name': name, 'kw': kw, 'spec': spec, 'dims': H.dims, 'e38': True, 'e55': E,
+                      'cost': e55_cost_q(tok, H.dims[i], H.cplx)})
+
+
+def judge_e55(ctx, items, outs):
+    """the scalar-polymorphic extended cycle model (recorded relaxation calls executed inside the cycle over the rationals or the
+    Gaussian rationals) against the real solve"""
+    for it, o in zip(items, outs):
+        H, spec, c, cpl, k = it['H'], it['spec'], it['c'], it['cpl'], it['k']
+        E = _Enc(H.cplx)
+        desc = _case(spec, dims=H.dims, cycle=c, cpl=cpl, k=k, x0=_lst(it['x0']), b=_lst(it['b']))
+        ctx.feat('lean:e55-run' + (':complex' if H.cplx else ':real'))
+        parts = o.split('#') if o != 'bad-op' else []
+        if len(parts) != 4:
+            ctx.corr('c03y_run', desc, o[:200], 'n/a', 'the driver rejected the request (a recorded call that is not a call for its '
+                     'level matrix, or a malformed line)')
+            continue
+        if parts[3] != '11':
+            ctx.corr('c03y_run model self-check (AllOK; one cycle = the cycle with the matrices Q of the recorded calls)', desc, parts[3], '11')
+        sc = it['scale']
+
+        def cmp(what, model, impl, refv):
+            if _close(impl, model, sc):
+                return
+            ctx.corr(what, desc, np.ravel(model)[:6].tolist(), np.ravel(impl)[:6].tolist())
+            if not _close(impl, refv, sc):
+                ctx.violation(f'{what}: the real code differs from the textbook recursion (extended Lean model and NumPy recursion agree '
+                              f'with each other): max difference {np.abs(np.ravel(impl) - np.ravel(refv)).max():.3g}', dict(desc, kind='cycle'))
+        cmp(f'scalar-polymorphic extended model: one {c}-cycle cpl={cpl}', E.dec_vec(parts[0]), it['x1'], ref(H, it['x0'], it['b'], c, cpl)[0])
+        cmp(f'scalar-polymorphic extended model: solve maxiter={k} {c} cpl={cpl}', E.dec_vec(parts[1]), it['xk'], ref(H, it['x0'], it['b'], c, cpl, k)[0])
+        cmp(f'scalar-polymorphic extended model: aspreconditioner({c}) @ b', E.dec_vec(parts[2]), it['pv'],
+            ref(H, np.zeros_like(it['b']), it['b'], c, 1)[0])
+
+
+# ------------------------------------------------------------------------------------------------
+# the coarse solve.  The textbook recursion solves the coarsest system with the STORED coarsest matrix levels[-1].A: the
+# coarse-solver matrix of the reference (NumPy recursion, Lean requests) is the dense inverse (pseudo-inverse for the pinv solver
+# on a singular matrix) recomputed here from levels[-1].A -- not the matrix probed from the solver under test, which is
+# compared with it.  A transposed / conjugated / stale factorisation is invisible on real symmetric coarsest matrices, so the
+# generator contains a systematic grid: every direct solver name x coarsest matrix real nonsymmetric | complex Hermitian |
+# complex nonsymmetric (| real symmetric) x CSR | BSR storage x 1 | 2 | 3 levels.
+# ------------------------------------------------------------------------------------------------
+
+DIRECT_COARSE = ('pinv', 'lu', 'cholesky', 'splu')
+
+
+def _as_bsr(A, bs):
+    n = A.shape[0]
+    bs = bs if (bs > 0 and n % bs == 0) else 1
+    B = sp.csr_array(A).tobsr(blocksize=(bs, bs))
+    B.indptr = B.indptr.astype(np.int32)
+    B.indices = B.indices.astype(np.int32)
+    return B
+
+
+def _coarsest_kind(Ac):
+    if Ac.size == 0:
+        return 'empty'
+    s = float(np.abs(Ac).max()) or 1.0
+    cx = bool(np.iscomplexobj(Ac) and np.abs(Ac.imag).max() > 1e-12 * s)
+    if Ac.shape[0] == 1:
+        return 'complex-1x1' if cx else 'real-1x1'
+    if np.abs(Ac - Ac.conj().T).max() <= 1e-12 * s:
+        return 'complex-hermitian' if cx else 'real-symmetric'
+    if cx and np.abs(Ac - Ac.T).max() <= 1e-12 * s:
+        return 'complex-symmetric'
+    return 'complex-nonsymmetric' if cx else 'real-nonsymmetric'
+
+
+def coarse_reference(ctx, H, spec):
+    """compare the probed coarse-solver matrix with the dense (pseudo-)inverse of the stored coarsest matrix and make the latter
+    the coarse solve of the reference recursion (H.S) on well-conditioned instances; -> None or the text of a violation"""
+    name = spec['coarse'] if isinstance(spec['coarse'], str) else spec['coarse'][0]
+    H.Sp = H.S
+    Ac = H.Ac
+    nc = Ac.shape[0]
+    fmt = getattr(H.ml.levels[-1].A, 'format', '?')
+    kind = _coarsest_kind(Ac)
+    tag = f'{name}:{kind}:{fmt}:L{min(H.nlev, 3)}'
+    ctx.feat('coarsest:' + tag)
+    if name not in DIRECT_COARSE or nc == 0 or not np.all(np.isfinite(Ac)) or not np.all(np.isfinite(H.Sp)):
+        ctx.feat('coarse-oracle:none')
+        return None
+    try:
+        sv = np.linalg.svd(Ac, compute_uv=False)
+    except Exception:
+        ctx.feat('coarse-oracle:none')
+        return None
+    smax = float(sv.max(initial=0.0))
+    if not smax > 0:
+        ctx.feat('coarse-oracle:none(zero matrix)')
+        return None
+    rel = sv / smax
+    extra = 0.0
+    if rel.min() >= 1e-8:
+        So = np.linalg.inv(Ac)
+        cond = 1.0 / float(rel.min())
+    elif name == 'pinv' and not np.any((rel > 1e-13) & (rel < 1e-6)):
+        # exactly singular with an unambiguous numerical rank: the coarse solve of the pinv solver is the pseudo-inverse
+        So = np.linalg.pinv(Ac, rcond=1e-10)
+        cond = 1.0 / float(rel[rel >= 1e-6].min())
+    else:
+        ctx.near_skipped += 1
+        ctx.feat('coarse-oracle:none(ill-conditioned)')
+        return None
+    if name == 'cholesky':
+        # applicable to Hermitian positive definite matrices only (the factorisation reads one triangle)
+        hd = float(np.abs(Ac - Ac.conj().T).max()) / smax
+        try:
+            pd = hd <= 1e-13 and float(np.linalg.eigvalsh((Ac + Ac.conj().T) / 2).min()) > 0
+        except Exception:
+            pd = False
+        if not pd:
+            ctx.feat('coarse-oracle:none(cholesky not applicable)')
+            return None
+        extra = 10.0 * hd * cond
+    smag = float(np.abs(So).max())
+    tol = max(1e-10, 1e3 * np.finfo(float).eps * cond, extra) * smag
+    d = float(np.abs(H.Sp - So).max())
+    if d > tol:
+        how = ''
+        for nm, M in (('the inverse of its TRANSPOSE', So.T), ('the inverse of its CONJUGATE', So.conj()),
+                      ('the inverse of its CONJUGATE TRANSPOSE', So.conj().T)):
+            if np.abs(H.Sp - M).max() <= tol:
+                how = f'; it is {nm}'
+                break
+        return (f'coarse solver {name!r} on the coarsest level ({nc} x {nc}, {kind}, stored as {fmt}, {H.nlev} level(s)): the coarse '
+                f'solve is not the solve with the stored coarsest matrix levels[-1].A: |S - A_c^-1| = {d:.3g} (|A_c^-1| = {smag:.3g}, '
+                f'condition {cond:.3g}){how}')
+    if cond <= 1e4:
+        H.S = np.asarray(So, dtype=H.dt)
+        ctx.feat('coarse-oracle:dense-inverse-in-reference')
+    else:
+        ctx.feat('coarse-oracle:compared-only')
+    return None
+
+
+def coarse_specs(rng, full):
+    """systematic grid of the direct coarse solvers over the kind / storage of the COARSEST matrix and the depth"""
+    fams = {'rnonsym': ['advdiff1d', 'advdiff2d'], 'cherm': ['complex'], 'cnonsym': ['cadvdiff'], 'rsym': ['poisson1d', 'randspd']}
+    smo = [['gauss_seidel', {'sweep': 'forward'}], ['jacobi', {'omega': 2.0 / 3.0}], ['gauss_seidel', {'sweep': 'symmetric'}],
+           ['sor', {'omega': 1.25, 'sweep': 'backward'}], 'gauss_seidel', ['gauss_seidel_ne', {'sweep': 'backward'}]]
+    specs = []
+    t = 0
+    for kind in ('rnonsym', 'cherm', 'cnonsym', 'rsym'):
+        for cs in ['pinv', 'lu', 'splu'] + (['cholesky'] if kind in ('cherm', 'rsym') else []):
+            if kind == 'rsym' and cs != 'cholesky' and not full:
+                continue          # real symmetric coarsest matrices: the bulk of the random specifications
+            for fmt in ('csr', 'bsr'):
+                for depth in (1, 2, 3):
+                    t += 1
+                    r = int(rng.integers(1 << 20))
+                    fam = fams[kind][r % len(fams[kind])]
+                    s = {'fam': fam, 'n': int(rng.choice([6, 8, 10])) + 4 * (depth - 1),
+                         'mseed': int(rng.integers(1 << 30)), 'npseed': int(rng.integers(1 << 30)), 'max_levels': depth,
+                         'max_coarse': 2 if depth > 1 else 10, 'via': ['ctor', 'change'][r // 7 % 2],
+                         'pre': smo[r // 3 % len(smo)], 'post': smo[r // 11 % len(smo)],
+                         'coarse': cs if t % 4 else [cs, {}], 't': 60000 + t, 'light': True, 'cgrid': True, 'opts': {}}
+                    agg = {'aggregate': 'standard'}
+                    if depth == 1:
+                        s['ctor'] = ['sa', 'rootnode'][r // 5 % 2]
+                        s['opts'] = dict(agg, smooth='jacobi') if s['ctor'] == 'sa' else agg
+                        if fmt == 'bsr':
+                            s['tobsr'] = 2
+                    elif fmt == 'csr':
+                        routes = {'rnonsym': ['rs', 'air', 'manual'], 'rsym': ['rs', 'manual']}.get(kind, ['manual'])
+                        s['ctor'] = routes[r // 5 % len(routes)]
+                        if s['ctor'] == 'rs':
+                            s['opts'] = {'CF': ['RS', 'PMIS'][r // 13 % 2], 'interpolation': ['classical', 'direct'][r // 17 % 2]}
+                        elif s['ctor'] == 'air':
+                            s['opts'] = {'restrict': ['air', {'theta': 0.05, 'degree': 1}], 'interpolation': 'one_point'}
+                    else:
+                        s['ctor'] = ['sa', 'rootnode', 'manual'][r // 5 % 3]
+                        if s['ctor'] != 'manual':
+                            s['opts'] = dict(agg, smooth=[None, 'jacobi'][r // 13 % 2]) if s['ctor'] == 'sa' else agg
+                            if depth == 3:          # aggregation coarsens by about 3: keep the coarsest matrix larger than 1 x 1
+                                s['n'] += 14
+                    if depth > 1 and s['ctor'] in ('sa', 'rootnode', 'air'):
+                        # 1-D (banded) members of the family: strength-based coarsening of the others ends at 1 x 1 at once
+                        s['fam'] = fams[kind][0]
+                    for _ in range(8):
+                        A0 = matrix(s['fam'], s['n'], s['mseed'])[0]
+                        if depth == 1 and np.linalg.cond(A0.toarray()) < 1e6:          # (the singular one-level case: special_specs)
+                            break
+                        if depth > 1 and (s['ctor'] not in ('sa', 'rootnode', 'air') or A0.nnz <= 3 * s['n']):
+                            break
+                        s['mseed'] = int(rng.integers(1 << 30))
+                    if s['ctor'] == 'manual':
+                        # Galerkin coarse matrices; R = P^H keeps a Hermitian matrix Hermitian, an independent R does not
+                        s['manual'] = {'galerkin': True, 'own_R': bool(kind in ('rnonsym', 'cnonsym') and r // 23 % 2), 'depth': depth,
+                                       'coarse_fmt': fmt}
+                    specs.append(s)
+    return specs
 
 
 def _usable(H):
@@ -1808,6 +2476,11 @@ def process_spec(ctx, spec, lean_items, sm_items, lean_dim, m_dim, nconf):
                       _case(spec, dims=H.dims, kind='smoother-affine', level=i, side=side), fkey=fkey)
     if problems:
         return True
+    bad_cs = coarse_reference(ctx, H, spec)          # from here on H.S is the dense inverse of the stored coarsest matrix
+    if bad_cs is not None:
+        ctx.violation(('after change_solve_matrix(Anew): ' if spec.get('changed') is not None else '') + bad_cs,
+                      _case(spec, dims=H.dims, kind='coarse-solve'))
+        return True
     H.log = _Log()
     check_smoothers_requested(ctx, H, spec)
     instrument(ml, H.log)
@@ -1827,6 +2500,12 @@ def process_spec(ctx, spec, lean_items, sm_items, lean_dim, m_dim, nconf):
             ctx.feat('smoother:' + str(spec_for_level(spec[side], i)[0]))
     if isinstance(spec['pre'], dict) or isinstance(spec['post'], dict):
         ctx.feat('per-level-smoother-list')
+    if spec.get('cgrid'):
+        # coarse-solver grid: cycles, fixed point and aspreconditioner against the recursion with the dense coarse inverse
+        ctx.feat('coarse-solver-grid')
+        confs = [('V', 1)] + ([[('W', 1)], [('F', 2)], [('F', 1)]][spec['t'] % 3] if H.nlev >= 3 else [])
+        check_hier(ctx, spec, H, confs, lean_items, False, False, precond=True)
+        return True
     if spec.get('light'):
         # smoother option grid: the requested-smoother check above is the point; one cycle type keeps it cheap
         ctx.feat('smoother-grid')
@@ -1834,6 +2513,10 @@ def process_spec(ctx, spec, lean_items, sm_items, lean_dim, m_dim, nconf):
             # extension E38: the Lean counterpart of the requested-smoother check on the systematic option grid
             _toks, _nrec, rec = e38_levels(ctx, H, spec)
             e38_q_items(H, spec, rec, sm_items)
+        if H.nlev >= 2 and max(H.dims) * (2 if H.cplx else 1) <= lean_dim and not H.inconsistent_coarse:
+            # extension E55: the same for complex levels, the point smoothers of BSR levels and CF / FC block Jacobi
+            _toks, _nnew, rec = e55_levels(ctx, H, spec)
+            e55_q_items(H, spec, rec, sm_items)
         check_hier(ctx, spec, H, [('V', 1) if spec['t'] % 2 else ('F', 2)], lean_items, False, False, precond=False)
         return True
     # configurations: always V; W and F where they differ; cycles_per_level >= 2 on deep hierarchies
@@ -1858,6 +2541,16 @@ def process_spec(ctx, spec, lean_items, sm_items, lean_dim, m_dim, nconf):
                 H.e38 = e38_header(H, toks)
                 H.e38_toks = toks
                 e38_q_items(H, spec, rec, sm_items)
+    H.e55 = None
+    if want_lean and H.nlev >= 2:
+        # extension E55: complex hierarchies and hierarchies with BSR-level point smoothers / CF-FC block Jacobi go through the
+        # scalar-polymorphic model (which then also carries the recorded calls E38 knows: one exact run per configuration)
+        toks, nnew, rec = e55_levels(ctx, H, spec)
+        if nnew:
+            H.e55 = e55_header(H, toks)
+            H.e55_toks = toks
+            H.e38 = None
+            e55_q_items(H, spec, rec, sm_items)
     check_hier(ctx, spec, H, confs, lean_items, want_lean, want_m)
     return True
 
@@ -2007,6 +2700,58 @@ def grid_specs(rng, full):
         sp_.update(pre=pre, post=post, via=['change', 'ctor'][t % 2], npseed=1000 + t, t=50000 + t, light=True)
         specs.append(sp_)
         t += 1
+    # ---- extension E55: CF / FC block Jacobi on BSR levels (a CF splitting of the block rows is supplied) next to the point
+    # smoothers of BSR levels, and every family -- first of all the conjugating `_ne` / `_nr` kernels -- on a complex Hermitian
+    # (smoothed aggregation) and on a complex nonsymmetric (hand-built, independent R, CF splitting) base hierarchy
+    combos = [(1, 1, 1), (2, 1, 1), (1, 2, 2), (3, 2, 1)]
+    mates = [['gauss_seidel', {'sweep': 'symmetric'}], ['jacobi', {'omega': 2.0 / 3.0, 'withrho': True}],
+             ['sor', {'omega': 1.25, 'sweep': 'backward'}], ['gauss_seidel', {'sweep': 'backward', 'iterations': 2}]]
+    for j, nm in enumerate(('cf_block_jacobi', 'fc_block_jacobi')):
+        for (fi, ci, it) in (combos if full else combos[:2]):
+            s1 = [nm, {'f_iterations': fi, 'c_iterations': ci, 'iterations': it, 'omega': 2.0 / 3.0, 'withrho': bool((fi + ci + it) % 2)}]
+            s2 = mates[(fi + ci + it + j) % 4]
+            sp_ = dict(bases['bsr'])
+            sp_.update(pre=s1 if j == 0 else s2, post=s2 if j == 0 else s1, via='change', block_split=40 + t, npseed=1000 + t,
+                       t=50000 + t, light=True)
+            specs.append(sp_)
+            t += 1
+    cbases = {
+        'herm': {'fam': 'complex', 'n': 9, 'mseed': 6, 'ctor': 'sa', 'max_levels': 3, 'max_coarse': 2, 'coarse': 'pinv',
+                 'opts': {'aggregate': 'standard', 'smooth': 'jacobi'}},
+        'nonsym': {'fam': 'cadvdiff', 'n': 8, 'mseed': 7, 'ctor': 'manual', 'max_levels': 3, 'max_coarse': 2, 'coarse': 'lu', 'opts': {},
+                   'manual': {'galerkin': True, 'own_R': True, 'depth': 3}},
+    }
+    cg = []
+    for sw in sweeps:
+        cg.append(['gauss_seidel_ne', {'omega': 1.25, 'sweep': sw, 'iterations': 1}])
+        cg.append(['gauss_seidel_nr', {'omega': 0.5, 'sweep': sw, 'iterations': 2 if sw == 'forward' else 1}])
+    cg += [['jacobi_ne', {'omega': 2.0 / 3.0, 'iterations': 2, 'withrho': True}], ['jacobi_ne', {'omega': 0.5, 'withrho': False}],
+           ['gauss_seidel', {'sweep': 'symmetric'}], ['sor', {'omega': 1.25, 'sweep': 'backward'}],
+           ['jacobi', {'omega': 2.0 / 3.0, 'iterations': 2, 'withrho': True}], ['chebyshev', {'degree': 2}],
+           ['richardson', {'omega': 0.5, 'iterations': 2}], ['block_gauss_seidel', {'sweep': 'forward'}],
+           ['cf_jacobi', {'omega': 2.0 / 3.0, 'f_iterations': 2, 'c_iterations': 1}], ['fc_jacobi', {'omega': 0.5, 'iterations': 2}]]
+    # complex Hermitian BSR hierarchy (2 x 2 and 3 x 3 complex blocks): block smoothers, point smoothers, CF / FC block Jacobi
+    cb = [['block_gauss_seidel', {'sweep': 'symmetric'}], ['block_jacobi', {'omega': 2.0 / 3.0, 'withrho': True}],
+          ['cf_block_jacobi', {'omega': 2.0 / 3.0, 'f_iterations': 2, 'c_iterations': 1}], ['gauss_seidel', {'sweep': 'backward'}],
+          ['fc_block_jacobi', {'omega': 0.5, 'iterations': 2, 'withrho': True}], ['jacobi', {'omega': 2.0 / 3.0, 'withrho': True}],
+          ['block_gauss_seidel', {'sweep': 'backward', 'iterations': 2}], ['sor', {'omega': 1.25, 'sweep': 'symmetric'}]]
+    for j in range(0, len(cb) if full else 4, 2):
+        sp_ = {'fam': 'celasticity', 'n': 16, 'mseed': 9, 'ctor': 'sa', 'max_levels': 3, 'max_coarse': 2, 'coarse': 'pinv',
+               'opts': {'aggregate': 'standard', 'smooth': 'jacobi'}}
+        sp_.update(pre=cb[j], post=cb[j + 1], via='change', block_split=80 + t, npseed=1000 + t, t=50000 + t, light=True)
+        specs.append(sp_)
+        t += 1
+    if not full:
+        cg = cg[:8] + cg[14:15]
+    for j, s1 in enumerate(cg):
+        base = 'nonsym' if (j % 2 or s1[0].startswith(('cf_', 'fc_'))) else 'herm'
+        s2 = cg[(j + 3) % len(cg)]
+        if s2[0].startswith(('cf_', 'fc_')) and base == 'herm':
+            s2 = s1
+        sp_ = dict(cbases[base])
+        sp_.update(pre=s1, post=s2, via='change', npseed=1000 + t, t=50000 + t, light=True)
+        specs.append(sp_)
+        t += 1
     return specs
 
 
@@ -2029,6 +2774,22 @@ def special_specs():
         {'fam': 'advdiff1d', 'n': 24, 'mseed': 5, 'npseed': 4, 'ctor': 'air', 'max_levels': 10, 'max_coarse': 2, 'via': 'ctor',
          'pre': None, 'post': ['fc_jacobi', {'omega': 1.0, 'iterations': 1, 'withrho': False, 'f_iterations': 2, 'c_iterations': 1}],
          'coarse': 'pinv', 'opts': {'restrict': ['air', {'theta': 0.05, 'degree': 2}], 'interpolation': 'one_point'}, 't': -5},
+        # extension E55: complex Hermitian and complex nonsymmetric hierarchies with the conjugating kernels, a BSR hierarchy with
+        # FC block Jacobi and a point smoother -- every run sends these through the scalar-polymorphic extended model (c03y_run)
+        {'fam': 'complex', 'n': 6, 'mseed': 2, 'npseed': 5, 'ctor': 'sa', 'max_levels': 2, 'max_coarse': 2, 'via': 'ctor',
+         'pre': ['gauss_seidel_ne', {'sweep': 'symmetric', 'omega': 1.0}], 'post': ['gauss_seidel_nr', {'sweep': 'forward', 'omega': 0.5}],
+         'coarse': 'pinv', 'opts': {'aggregate': 'standard', 'smooth': 'jacobi'}, 't': -6},
+        {'fam': 'cadvdiff', 'n': 7, 'mseed': 3, 'npseed': 6, 'ctor': 'manual', 'max_levels': 3, 'max_coarse': 1, 'via': 'change',
+         'pre': ['jacobi_ne', {'omega': 0.5, 'withrho': True}], 'post': ['cf_jacobi', {'omega': 2.0 / 3.0, 'f_iterations': 2}],
+         'coarse': 'lu', 'opts': {}, 'manual': {'galerkin': True, 'own_R': True, 'depth': 3}, 't': -7},
+        {'fam': 'elasticity', 'n': 16, 'mseed': 5, 'npseed': 7, 'ctor': 'sa', 'max_levels': 2, 'max_coarse': 2, 'via': 'change',
+         'block_split': 17, 'pre': ['fc_block_jacobi', {'omega': 2.0 / 3.0, 'f_iterations': 2, 'c_iterations': 1}],
+         'post': ['gauss_seidel', {'sweep': 'symmetric'}], 'coarse': 'pinv', 'opts': {'aggregate': 'standard', 'smooth': 'jacobi'},
+         't': -8},
+        {'fam': 'celasticity', 'n': 16, 'mseed': 9, 'npseed': 8, 'ctor': 'sa', 'max_levels': 2, 'max_coarse': 2, 'via': 'change',
+         'block_split': 23, 'pre': ['block_gauss_seidel', {'sweep': 'forward'}],
+         'post': ['cf_block_jacobi', {'omega': 2.0 / 3.0, 'f_iterations': 1, 'c_iterations': 2}], 'coarse': 'pinv',
+         'opts': {'aggregate': 'standard', 'smooth': 'jacobi'}, 't': -9},
     ]
 
 
@@ -2095,33 +2856,46 @@ def run_specs(ctx, specs, lean_dim, m_dim, nconf=4, batch=None):
         budget = (500.0 if ctx.quick else 5000.0) / nb
         cap = 12.0 if ctx.quick else 90.0
         cand = ([('run', it['e38_cost'], id(it), it) for it in lean_items if 'e38' in it]
-                + [('q:' + it['lines'][0].split(' ')[2].split(':', 1)[0], it['cost'], id(it), it) for it in sm_items if it.get('e38')])
+                + [('run55' + ('c' if it['H'].cplx else 'r'), it['e55_cost'], id(it), it) for it in lean_items if 'e55' in it]
+                + [(('q55' + it['e55'].tag + ':' + _q_sig(it)) if it.get('e55') else ('q:' + _q_kind(it)), it['cost'], id(it), it)
+                   for it in sm_items if it.get('e38')])
         cand.sort(key=lambda z: z[1])
-        keep, used_cost, seen = set(), 0.0, set()
-        for first_of_kind in (True, False):          # the cheapest request of every family first, then by cost
-            for kind, cost, key, it in cand:
-                if key in keep or (first_of_kind and kind in seen):
-                    continue
-                if cost <= cap and used_cost + cost <= budget:
-                    keep.add(key)
-                    seen.add(kind)
-                    used_cost += cost
+        keep, seen = set(), set()
+        # the E38 requests and the E55 requests (complex data, smoothers of BSR levels) have budgets of their own, so that the
+        # newer ones do not displace the older ones
+        groups = ((lambda kd: not kd.startswith(('run55', 'q55')), budget),
+                  (lambda kd: kd.startswith('run55'), (40.0 if ctx.quick else 700.0) / nb),
+                  (lambda kd: kd.startswith('q55'), (50.0 if ctx.quick else 700.0) / nb))
+        for member, bud in groups:
+            used_cost = 0.0
+            for first_of_kind in (True, False):          # the cheapest request of every family first, then by cost
+                for kind, cost, key, it in cand:
+                    if not member(kind) or key in keep or (first_of_kind and kind in seen):
+                        continue
+                    if cost <= cap and used_cost + cost <= bud:
+                        keep.add(key)
+                        seen.add(kind)
+                        used_cost += cost
         for kind, cost, key, it in cand:
             if key not in keep:
                 ctx.feat('e38:skipped-cost:' + kind.split(':')[0])
         for it in lean_items:
             if 'e38' in it and id(it) not in keep:
                 del it['e38']
+            if 'e55' in it and id(it) not in keep:
+                del it['e55']
         sm_items = [it for it in sm_items if not it.get('e38') or id(it) in keep]
         e38_items = [it for it in lean_items if 'e38' in it]
+        e55_items = [it for it in lean_items if 'e55' in it]
         heavy = ([it['line'] for it in lean_items] + [ln for it in e17_items for ln in it['e17']['lines']]
-                 + [it['e38'] for it in e38_items])
+                 + [it['e38'] for it in e38_items] + [it['e55'] for it in e55_items])
         light = [ln for it in sm_items for ln in it['lines']]
         oh, ol = _lean_balanced(ctx, heavy, light)
         judge_lean(ctx, lean_items, oh[:len(lean_items)])
         n17 = sum(len(it['e17']['lines']) for it in e17_items)
         judge_e17(ctx, e17_items, oh[len(lean_items):len(lean_items) + n17])
-        judge_e38(ctx, e38_items, oh[len(lean_items) + n17:])
+        judge_e38(ctx, e38_items, oh[len(lean_items) + n17:len(lean_items) + n17 + len(e38_items)])
+        judge_e55(ctx, e55_items, oh[len(lean_items) + n17 + len(e38_items):])
         judge_smoothers(ctx, sm_items, ol)
         if ctx.time_left() < (25 if ctx.quick else 150):
             break
@@ -2142,6 +2916,10 @@ def run(ctx):
     specs += [dict(g, changed=9000 + i, t=g['t'] + 100000) for i, g in enumerate(rnd) if i % 3 == 0 and g['max_levels'] > 1]
     specs += [gen_spec(rng, 10000 + t, big=True) for t in range(n_big)]
     specs += [s for s in sp_ if s['fam'] == 'neumann1d']      # the singular one-level case (known finding) goes last
+    # every direct coarse solver x kind / storage of the coarsest matrix x depth (drawn last, run right after the corner cases)
+    cg = [s for rep in range(ctx.scale(1, 4)) for s in coarse_specs(rng, not ctx.quick)]
+    nsp = sum(1 for s in sp_ if s['fam'] != 'neumann1d')
+    specs = specs[:nsp] + cg + specs[nsp:]
     run_specs(ctx, specs, lean_dim=ctx.scale(34, 44), m_dim=ctx.scale(13, 17))
 
 
@@ -2152,6 +2930,7 @@ def search(ctx):
     specs = (grid + [dict(g, changed=7000 + i, t=g['t'] + 100000) for i, g in enumerate(grid)] + rnd
              + [dict(g, changed=9000 + i, t=g['t'] + 100000) for i, g in enumerate(rnd) if i % 2 == 0 and g['max_levels'] > 1]
              + [gen_spec(rng, 30000 + t, big=True) for t in range(20)])
+    specs = [s for rep in range(3) for s in coarse_specs(rng, True)] + specs
     run_specs(ctx, specs, lean_dim=0, m_dim=0, nconf=5)
 
 
@@ -2162,6 +2941,11 @@ def replay(ctx, data):
     ml, info = build(spec)
     H, problems = take_apart(ml, info, ctx.np_rng)
     print('levels', H.dims, 'smoother problems', problems)
+    bad_cs = coarse_reference(ctx, H, spec)
+    print('coarse solver vs the dense inverse of levels[-1].A:', bad_cs or 'agree (or no dense oracle for this instance)')
+    if bad_cs is not None:
+        ctx.violation(bad_cs, _case(spec, dims=H.dims, kind='coarse-solve'))
+        H.S = H.Sp
     H.log = _Log()
     check_smoothers_requested(ctx, H, spec)
     instrument(ml, H.log)
